@@ -25,7 +25,7 @@ INTERLEAVING_MEASURE = ("distinct sequences of (task, function) over entries int
                         "run_step/progress of bptk.py and bptkServer.py during the concurrent phase")
 RULE = ("a run = one instance with a live session + 2-3 concurrent step-advancing requests (kinds: run-step, "
         "run-steps(n), stream-steps consumed fully, stream-steps closed after m chunks, optionally an injected "
-        "exception in the j-th step) executed under one schedule (random(p), pct(d), single-pre-emption sweep or "
+        "exception in the j-th step; invalid requests: JSON without a required key, malformed JSON, no JSON) executed under one schedule (random(p), pct(d), single-pre-emption sweep or "
         "default); non-trivial = at least one task switch happened at a source-line pre-emption point while two "
         "requests were in flight, or a fault (disconnect/exception) fired; distinct = distinct event-log digest")
 REAL = ["BPTK_Py.server.bptkServer (handlers, token_required, InstanceManager)", "BPTK_Py.bptk (begin_session, "
@@ -37,12 +37,13 @@ STUB = ["choice of the running thread (baton scheduler)", "uuid source", "wall c
 ASSUMPTIONS = ["code outside the traced files is atomic between two pre-emption points",
                "request loss/duplication not injected: no property promises idempotent retry",
                "sampling over schedules, not proof; the single-pre-emption sweep is complete only for the sampled request pairs"]
-FAULT_KINDS = ["preemption", "client_disconnect", "step_exception"]
-PROBES = ["disconnect_mid_stream", "exception_mid_request",
+FAULT_KINDS = ["preemption", "client_disconnect", "step_exception", "invalid_request"]
+PROBES = ["invalid_request_sent", "disconnect_mid_stream", "exception_mid_request",
           "refused_while_locked", "stream_completed", "preempted_inside_run_step"]
 EXHAUSTIVE = {"quick": False, "thorough": False}
 
-KINDS = ["run_step", "run_step_nobody", "run_steps", "stream", "stream_disc", "run_steps_exc", "stream_exc"]
+KINDS = ["run_step", "run_step_nobody", "run_steps", "stream", "stream_disc", "run_steps_exc", "stream_exc",
+         "run_step_bad", "run_steps_bad", "stream_bad", "stream_nobody"]
 
 
 def client_of(kind, rng):
@@ -61,7 +62,29 @@ def client_of(kind, rng):
         return {"kind": "run_steps", "n": n, "raise_at": rng.randrange(n)}
     if kind == "stream_exc":
         return {"kind": "stream", "chunks": None, "body": True, "raise_at": rng.choice([0, 1, 2])}
+    if kind == "run_step_bad":
+        return {"kind": "run_step", "bad": rng.choice(["no_settings", "malformed"])}
+    if kind == "run_steps_bad":
+        return {"kind": "run_steps", "n": 2, "bad": rng.choice(["no_settings", "no_number", "malformed", "not_json"])}
+    if kind == "stream_bad":
+        return {"kind": "stream", "chunks": None, "bad": rng.choice(["no_settings", "malformed"])}
+    if kind == "stream_nobody":
+        return {"kind": "stream", "chunks": None, "body": False}
     raise ValueError(kind)
+
+
+def bad_request(w, inst, c, tag):
+    """a request an imperfect client might send: valid JSON without a required key, malformed JSON, no JSON at all"""
+    path = "/%s/%s" % (inst, {"run_step": "run-step", "run_steps": "run-steps", "stream": "stream-steps"}[c["kind"]])
+    bad = c["bad"]
+    if bad == "no_settings":
+        body = {"numberSteps": 2} if c["kind"] == "run_steps" else {"flatResults": False}
+        return w.post(path, body, tag=tag)
+    if bad == "no_number":
+        return w.post(path, {"settings": {}}, tag=tag)
+    if bad == "malformed":
+        return w.request("POST", path, raw=b'{"settings": {', content_type="application/json", tag=tag)
+    return w.request("POST", path, raw=b"settings=1", content_type="text/plain", tag=tag)
 
 
 def base_case(clients, sched, pre=1, stop=9.0, adapter=None):
@@ -80,7 +103,7 @@ def base_case(clients, sched, pre=1, stop=9.0, adapter=None):
 
 # ------------------------------------------------------------------ plan / generate
 
-PAIR_KINDS = ["run_step", "run_steps", "stream", "stream_disc", "run_steps_exc", "stream_exc", "run_step_nobody"]
+PAIR_KINDS = ["run_step", "run_steps", "stream", "stream_disc", "run_steps_exc", "stream_exc", "run_step_nobody", "stream_bad", "run_steps_bad", "run_step_bad"]
 
 
 def plan(tier, verif_seed):
@@ -195,7 +218,20 @@ def execute(case):
                        "status": None, "failed": False, "bad_shape": False}
                 if c.get("raise_at") is not None:
                     w.raise_at[tag] = c["raise_at"]
-                if c["kind"] == "run_step":
+                if c.get("bad"):
+                    res.fault("invalid_request")
+                    res.probe("invalid_request_sent")
+                    rr = bad_request(w, inst, c, tag)
+                    rec["status"] = rr.status
+                    rec["invalid"] = True
+                    if rr.status == 200 and rr.body is not None:
+                        # an invalid request that is served anyway: whatever steps it reports count
+                        lst = rr.body if isinstance(rr.body, list) else [rr.body]
+                        for d in lst:
+                            ts = times_of_step_result(d)
+                            if ts is not None:
+                                rec["times"] += ts
+                elif c["kind"] == "run_step":
                     body = {"settings": {}} if c.get("body", True) else None
                     rr = w.post("/%s/run-step" % inst, body, tag=tag)
                     rec["status"] = rr.status
@@ -338,7 +374,9 @@ def execute(case):
             if fr.status != 200:
                 how = []
                 for rec, c in zip(recs, clients):
-                    if rec["kind"] != "run_step" and not rec["refused"]:
+                    if c.get("bad"):
+                        how.append(c["kind"] + "_invalid_" + c["bad"])
+                    elif rec["kind"] != "run_step" and not rec["refused"]:
                         how.append("stream_completed" if (c["kind"] == "stream" and rec["complete"] and c.get("raise_at") is None)
                                    else "stream_disconnected" if c["kind"] == "stream" and not rec["complete"] and c.get("raise_at") is None
                                    else c["kind"] + ("_exception" if c.get("raise_at") is not None else ""))
